@@ -4,6 +4,7 @@ import (
 	"fmt"
 	"go/token"
 	"go/types"
+	"sort"
 
 	"golang.org/x/tools/go/ssa"
 
@@ -102,7 +103,8 @@ func checkC03(c *Ctx) {
 
 			// the record tested is perUser[asUid] with asUid a parameter of type Uid
 			recOK := false
-			c.withCallees(fn, 2, func(_ *ssa.Function, in ssa.Instruction, _ ssa.Instruction) {
+			root := c.phaseRoot(fn)
+			visitW := func(in ssa.Instruction) {
 				call, ok := in.(*ssa.Call)
 				if !ok || core.CalleeOf(&call.Call) != isWriter {
 					return
@@ -111,17 +113,36 @@ func checkC03(c *Ctx) {
 				if !okm {
 					return
 				}
-				if recordFromMapParam(base, perUser) {
+				if recordFromMapParam(base, perUser) || recordFromMapParam(c.recordRoot(base), perUser) {
 					recOK = true
 				}
-			})
+			}
+			c.withCallees(fn, 2, func(_ *ssa.Function, in ssa.Instruction, _ ssa.Instruction) { visitW(in) })
+			if root != fn {
+				c.regionInstrs(root, func(_ *ssa.Function, in ssa.Instruction) { visitW(in) })
+			}
 			r.Check(recOK, "C03.1b-record-is-perUser-of-author", construct, c.pos(site),
 				"the tested record is Topic.perUser[<Uid parameter>]", "the record whose modes are tested is not Topic.perUser[<Uid parameter of the function>]")
 
 			// (5) denial effect-free: fail edge of the writer guard
-			fe := core.FailEdges(fn, gW)
-			if bad := c.effectFreeFrom(fn, fe, nil); bad != nil {
-				r.Fail("C03.5-denial-effect-free", construct+" / writer-denied edge", c.pos(bad), "an instruction with effects is reachable after the write-permission denial: "+bad.String())
+			var badW ssa.Instruction
+			nFail := 0
+			var regionFns []*ssa.Function
+			for f := range c.regionOf(root) {
+				regionFns = append(regionFns, f)
+			}
+			sort.Slice(regionFns, func(i, j int) bool { return fk(regionFns[i]) < fk(regionFns[j]) })
+			for _, f := range regionFns {
+				fe := core.FailEdges(f, gW)
+				nFail += len(fe)
+				if bad := c.effectFreeFrom(f, fe, nil); bad != nil && badW == nil {
+					badW = bad
+				}
+			}
+			if badW != nil {
+				r.Fail("C03.5-denial-effect-free", construct+" / writer-denied edge", c.pos(badW), "an instruction with effects is reachable after the write-permission denial: "+badW.String())
+			} else if nFail == 0 {
+				r.Fail("C03.5-denial-effect-free", construct+" / writer-denied edge", c.pos(site), "no denial edge of the write-permission test found: undecided")
 			} else {
 				r.OK("C03.5-denial-effect-free", construct+" / writer-denied edge", c.pos(site), "only reply/logging between denial and return")
 			}
@@ -131,11 +152,12 @@ func checkC03(c *Ctx) {
 		}
 
 		// (2),(3) callers
-		callers := c.callersOf(fn)
+		saveRoot := c.phaseRoot(fn)
+		callers := c.callersOf(saveRoot)
 		r.Floor("C03.2-who-may-save", 1)
 		for _, cs := range callers {
 			r.Func(fk(cs.Caller))
-			construct := fk(cs.Caller) + " -> " + fk(fn)
+			construct := fk(cs.Caller) + " -> " + fk(saveRoot)
 			lifecycle := c.isCallLifecycleFunc(cs.Caller)
 			if !lifecycle {
 				// an extracted "save the replacement message" helper: all of its callers are life-cycle functions
@@ -292,24 +314,11 @@ func (c *Ctx) checkSavedMessageFields(fn *ssa.Function, site ssa.CallInstruction
 	if len(args) < 2 {
 		return
 	}
-	msgAlloc, ok := core.Strip(args[1]).(*ssa.Alloc)
 	construct := fk(fn) + ": types.Message passed to Save"
+	fieldVal, ok := c.literalOf(args[1])
 	if !ok {
 		r.Info("C03.1c-saved-message-fields", construct, c.pos(site), "message argument is not a literal; fields not checked")
 		return
-	}
-	fieldVal := map[string]ssa.Value{}
-	for _, ref := range *msgAlloc.Referrers() {
-		fa, ok := ref.(*ssa.FieldAddr)
-		if !ok {
-			continue
-		}
-		f, _ := core.FieldOfAddr(fa)
-		for _, r2 := range *fa.Referrers() {
-			if st, ok := r2.(*ssa.Store); ok && st.Addr == fa {
-				fieldVal[f.Name()] = st.Val
-			}
-		}
 	}
 	uidString := c.method("server/store/types", "Uid", "String")
 	name := c.E().topicField("name")
